@@ -129,6 +129,8 @@ def check_ragged(eng, run):
     if call is None:
         raise AnalysisError("anchor vanished: wrap_socket() in SSLStreamTransport.__init__")
     kw = next((k.value for k in call.keywords if k.arg == "suppress_ragged_eofs"), None)
+    from sa.analyses.buffers import through_local
+    kw = through_local(fn, kw)  # `suppress = not standard_compatible; wrap_socket(..., suppress_ragged_eofs=suppress)`
     ok = isinstance(kw, ast.UnaryOp) and isinstance(kw.op, ast.Not) and isinstance(kw.operand, ast.Name)
     if ok:
         name = kw.operand.id
@@ -152,44 +154,115 @@ def _conjuncts(test):
     return [ast.unparse(test)]
 
 
+class NotifyPath(RuleAnalysis):
+    """path conditions on the way to the closing handshake.  fact = frozenset of literals: '+std' / '-std' (standard-compatible mode),
+    '+open' / '-open' (the wrapped transport / socket is still open), '+own' / '-own' (the object's own closing flag: idempotence
+    guard), '+?<text>' / '-?<text>' (any other condition), 'unwrapped'.  Private helpers are interpreted in place, negations and
+    guard clauses are normalised by the engine."""
+    tokens = ("OSError", "Exception", CANCELLED)
+    inline_helpers = True
+
+    def __init__(self, engine, closers):
+        super().__init__(engine)
+        self.closers = closers
+        self.unwrap_sites = []
+        self.close_before = []
+
+    def initial(self, fn):
+        return [frozenset()]
+
+    def keeps_opaque(self, g, node):
+        # the call that carries the unwrap (retry wrapper given `ssl_object.unwrap`) is the event of interest, not something to look into
+        return any(isinstance(x, ast.Attribute) and x.attr == "unwrap" for x in ast.walk(node))
+
+    def may_raise(self, node, fact):
+        if isinstance(node, ast.Await):
+            return list(self.tokens)
+        if isinstance(node, ast.Call):
+            if isinstance(node.func, ast.Attribute) and node.func.attr in ("fileno", "is_closing", "is_closed", "cancelled_caught", "backend", "move_on_after", "callback"):
+                return []  # state accessors / registrations: they do not fail
+            return ["OSError", "Exception"]
+        return []
+
+    def raise_fact(self, node, fact, token):
+        call = node.value if isinstance(node, ast.Await) and isinstance(node.value, ast.Call) else node
+        if isinstance(call, ast.Call) and any(isinstance(x, ast.Attribute) and x.attr == "unwrap" for x in ast.walk(call)):
+            return [fact | {"unwrapped"}]  # the closing handshake was attempted; its failure is handled by the caller's arms
+        return [fact]
+
+    @staticmethod
+    def _literal(test):
+        src = ast.unparse(test)
+        if "standard_compatible" in src and not any(isinstance(x, ast.Call) for x in ast.walk(test)):
+            return "std", True
+        if isinstance(test, ast.Call) and isinstance(test.func, ast.Attribute) and test.func.attr in ("is_closing", "is_closed"):
+            return "open", False
+        if isinstance(test, ast.Compare) and len(test.ops) == 1 and isinstance(test.left, ast.Call) and isinstance(test.left.func, ast.Attribute) and test.left.func.attr == "fileno" \
+                and isinstance(test.comparators[0], (ast.Constant, ast.UnaryOp)):
+            try:
+                c = ast.literal_eval(test.comparators[0])
+            except Exception:  # noqa: BLE001
+                return "?" + src, True
+            op = type(test.ops[0])
+            if (op is ast.GtE and c == 0) or (op is ast.Gt and c == -1):
+                return "open", True
+            if (op is ast.Lt and c == 0) or (op is ast.LtE and c == -1):
+                return "open", False
+        if isinstance(test, ast.Attribute) and any(test.attr.lower().endswith(w) for w in ("closing", "closed")):
+            return "own", True
+        return "?" + src, True
+
+    def branch(self, test, fact):
+        lit, positive = self._literal(test)
+        t, f = fact | {("+" if positive else "-") + lit}, fact | {("-" if positive else "+") + lit}
+        return [t], [f]
+
+    def transfer(self, node, fact):
+        if isinstance(node, ast.Await) and isinstance(node.value, ast.Call):
+            node = node.value
+        if isinstance(node, ast.Call):
+            mentions_unwrap = any(isinstance(x, ast.Attribute) and x.attr == "unwrap" for x in ast.walk(node))
+            if mentions_unwrap:
+                self.unwrap_sites.append((node, fact))
+                return [fact | {"unwrapped"}]
+            name = ast.unparse(node.func)
+            if (name in self.closers or name.split(".")[-1] in self.closers) and "+std" in fact and "-open" not in fact and "+own" not in fact and "unwrapped" not in fact:
+                self.close_before.append(node)
+        return [fact]
+
+
 def check_notify(eng, run):
+    """closing sends a close notification: in standard-compatible mode, with the wrapped transport still open, every normal path of
+    close()/aclose() runs unwrap() before it closes the transport; unwrap() is reached under no other condition than those two (and
+    the object's own idempotence flag) and never when the mode is off.  Decided on path conditions, so guard clauses, swapped arms and
+    helpers extracted from the function read the same."""
     db = eng.db
     insts = [
-        (db.fn("lowlevel.api_async.transports.tls:AsyncTLSStreamTransport.aclose"), {"self._standard_compatible", "not self._transport.is_closing()"}, "_retry_ssl_method", "self._transport.aclose"),
-        (db.fn("lowlevel.api_sync.transports.socket:SSLStreamTransport.close"), {"self.__standard_compatible", "self.__socket.fileno() >= 0"}, "_retry", "_close_stream_socket"),
+        (db.fn("lowlevel.api_async.transports.tls:AsyncTLSStreamTransport.aclose"), {"aclose", "self._transport.aclose"}),
+        (db.fn("lowlevel.api_sync.transports.socket:SSLStreamTransport.close"), {"_close_stream_socket"}),
     ]
-    for fn, allowed, retry_name, closer in insts:
-        unwraps = [n for n in ast.walk(fn.node) if isinstance(n, ast.Attribute) and n.attr == "unwrap"]
-        guards = []
-        ok = bool(unwraps)
-        why = "unwrap() (close_notify) is no longer performed on close"
-        for u in unwraps:
-            g = None
-            for iff in own_nodes(fn.node):
-                if isinstance(iff, ast.If) and any(u in list(ast.walk(s)) for s in iff.body):
-                    if g is None or iff.lineno > g.lineno:
-                        g = iff
-            if g is None:
-                ok, why = False, "unwrap() is performed even when standard-compatible mode is off"
-                continue
-            cj = set(_conjuncts(g.test))
-            guards.append(sorted(cj))
-            if not any("standard_compatible" in c for c in cj):
-                ok, why = False, "unwrap() is not guarded by standard_compatible: with the mode off the close would start a closing handshake"
-            extra = cj - allowed
-            if extra:
-                ok, why = False, f"the close_notify is skipped under an extra condition {sorted(extra)}: the peer sees a truncated stream although we closed in standard-compatible mode"
-            # directly in the if body (not under a further condition)
-            for inner in ast.walk(g):
-                if isinstance(inner, ast.If) and inner is not g and any(u in list(ast.walk(s)) for s in inner.body + inner.orelse):
-                    ok, why = False, "unwrap() sits under a further condition inside the standard-compatible branch"
-        # unwrap precedes the closing of the transport
-        close_calls = [n for n in own_nodes(fn.node) if isinstance(n, ast.Call) and (ast.unparse(n.func) == closer or _cname(n) == closer)]
-        if unwraps and close_calls and not all(u.lineno < c.lineno for u in unwraps for c in close_calls if _cname(c) != "aclose_forcefully"):
-            ok, why = False, "the transport is closed before unwrap()"
+    for fn, closers in insts:
+        an = NotifyPath(eng, closers)
+        out = Interp(an, fn).run()
+        ok, why, where = True, "", fn.node
+        if not an.unwrap_sites:
+            ok, why = False, "unwrap() (close_notify) is no longer performed on close"
+        for node, fact in an.unwrap_sites:
+            extra = sorted(x for x in fact if x[1:].startswith("?"))
+            if "+std" not in fact:
+                ok, why, where = False, ("unwrap() is performed even when standard-compatible mode is off" if "-std" in fact else
+                                          "unwrap() is not guarded by standard_compatible: with the mode off the close would start a closing handshake"), node
+            elif extra:
+                ok, why, where = False, f"the close_notify is sent only under an extra condition {[e[2:] for e in extra]}: otherwise the peer sees a truncated stream although we closed in standard-compatible mode", node
+        # every normal exit in standard-compatible mode with the transport open has gone through unwrap()
+        for fact, tr in out.ret.items():
+            if "+std" in fact and "-open" not in fact and "+own" not in fact and "unwrapped" not in fact:
+                ok, why = False, "a path returns in standard-compatible mode, with the transport still open, without having performed unwrap(): no close_notify is sent"
+        for node in an.close_before[:1]:
+            ok, why, where = False, "the transport is closed before unwrap()", node
         if not ok:
-            run.finding("C09.notify", fn, unwraps[0] if unwraps else fn.node, why)
-        run.ob("C09.notify", f"{fn.cls.name}.{fn.name}", ok, guards=guards)
+            run.finding("C09.notify", fn, where if where is not fn.node else fn.node, why)
+        run.ob("C09.notify", f"{fn.cls.name}.{fn.name}", ok, unwrap_sites=len(an.unwrap_sites), path_conditions=[sorted(f) for _, f in an.unwrap_sites][:2])
 
 
 def check_ctx(eng, run):
